@@ -279,20 +279,28 @@ def _single_sample_calls(model: Model, X: RuleResult):
                     X.ok(f.fq, what + " : one sample position")
 
 
-def _one_context(model: Model, X: RuleResult):
+def _one_context(model: Model, X: RuleResult, whole_package: bool = False):
     """At most one pure function's useobjparams context is open while a pure function is evaluated: with two contexts open at once,
     functions that are methods of the SAME object overwrite each other's substituted tensors (the second install wins)."""
-    for f in model.module(MCQ).functions.values():
+    for f in (list(model.all_functions()) if whole_package else list(model.module(MCQ).functions.values())):
         for w in own_nodes(f.node):
             if not isinstance(w, ast.With):
                 continue
             mine = [i for i in w.items if isinstance(i.context_expr, ast.Call) and isinstance(i.context_expr.func, ast.Attribute) and i.context_expr.func.attr == "useobjparams"]
             if not mine:
                 continue
-            nested = [x for b in w.body for x in ast.walk(b) if isinstance(x, ast.With) and any(
-                isinstance(i.context_expr, ast.Call) and isinstance(i.context_expr.func, ast.Attribute) and i.context_expr.func.attr == "useobjparams" for i in x.items)]
+            nested = [i for b in w.body for x in ast.walk(b) if isinstance(x, ast.With) for i in x.items
+                      if isinstance(i.context_expr, ast.Call) and isinstance(i.context_expr.func, ast.Attribute) and i.context_expr.func.attr == "useobjparams"]
             what = "%s: `%s`" % (f.qualname, norm_stmt(w, 90))
-            if len(mine) > 1 or nested:
+            fdefs = function_defs(f.node)
+
+            def recv(i):
+                e = i.context_expr.func.value
+                if isinstance(e, ast.Name) and len(fdefs.get(e.id, [])) == 1 and isinstance(fdefs[e.id][0], (ast.Attribute, ast.Name)):
+                    e = fdefs[e.id][0]
+                return ast.unparse(e)
+            receivers = {recv(i) for i in mine + nested}
+            if len(receivers) > 1:
                 X.bad(f, w, "two useobjparams contexts are open at the same time: when f and log p are methods of the same object the second install overwrites the tensors "
                       "of the first, so one of the functions is evaluated with the other's copies (its pull-back is None -> zero)", what=what)
             else:
